@@ -536,6 +536,32 @@ func (r *run) leaseOnce(last bool) (soft bool, _ *failure) {
 		} else {
 			r.class("overflow-connections")
 		}
+		if r.pingpong() && reqOver && hadIdle == 0 && r.mode == pool.ModeAccept && diffBooks(r.read(), r.expect()) != "" {
+			// a pool may have opened a connection for the refused request and kept it as idle: that is a
+			// legal state (the connection is idle, the books say so)
+			w := r.expect()
+			w.idle++
+			w.total++
+			w.connActive++
+			if diffBooks(r.read(), w) == "" {
+				var found *pool.UConn
+				waitEither(r.d, func() bool {
+					for _, uc := range r.rig.Up.Conns() {
+						if r.conn(uc.ID) == nil && !uc.Refused && uc.Open() && len(uc.Reqs) == 0 {
+							found = uc
+							return true
+						}
+					}
+					return false
+				})
+				if found != nil {
+					c := &mconn{id: found.ID, state: cIdle}
+					r.conns = append(r.conns, c)
+					r.idle = append(r.idle, c)
+					r.class("overflow-left-idle-connection")
+				}
+			}
+		}
 		if r.h.Kind == pool.HTTP1 && reqOver && diffBooks(r.read(), r.expect()) != "" {
 			// NewStream returned: the books are final. F10: the client obtained before the max_requests
 			// test is neither used nor given back.
@@ -789,6 +815,7 @@ func (r *run) settleEither(c *mconn, name string) *failure {
 		}
 		return "neither"
 	})
+	r.logf("drained c%d: books %s -> %s", c.id, r.read(), map[int]string{0: "neither", 1: "kept", 2: "closed"}[which])
 	if which == 1 {
 		c.state, c.byPool = cIdle, false
 		r.idle = append(r.idle, c)
@@ -876,6 +903,9 @@ func (r *run) upclose(c *mconn, rst bool) *failure {
 		}
 	}
 	for _, s := range victims {
+		if r.h.Kind == pool.HTTP1 && !s.st.Wait(r.d/4, func(st pool.StreamState) bool { return st.Destroyed > 0 }) {
+			r.http1CloseWithoutReset(s)
+		}
 		if !s.st.Wait(r.d, func(st pool.StreamState) bool { return st.Destroyed > 0 }) {
 			if f := r.muxGoAwayDeadlock(c); f != nil {
 				return f
@@ -891,6 +921,17 @@ func (r *run) upclose(c *mconn, rst bool) *failure {
 	c.dirty = 0
 	r.closeConn(c, false)
 	return r.settle(name)
+}
+
+// http1CloseWithoutReset: measured (3 of 4000 tries): when the connection closes right after the request
+// was written, the HTTP/1 client's serve goroutine can find both requestSent and connClosed ready in its
+// select, take connClosed and exit without resetting the in-flight stream. The connection is closed
+// and removed from the books all the same; the proxy ends the request by its timeout, and so does the
+// harness here. Not a C09 matter (reported as a side observation), recorded as a class.
+func (r *run) http1CloseWithoutReset(s *mstream) {
+	r.logf("request %s: connection closed but no reset was signalled: local reset (timeout)", s.token)
+	r.class("http1-close-without-reset")
+	_ = r.rig.Reset(s.st)
 }
 
 // muxGoAwayDeadlock: structural evidence (not elapsed time) that the connection's event goroutine
@@ -923,7 +964,8 @@ func (r *run) goaway(c *mconn) *failure {
 		c.either = true
 		return r.settle("goaway")
 	}
-	// idle: either stays or is closed
+	// idle: either stays or is closed; if it stays, the pool may still close it after its next exchange
+	c.either = true
 	r.dropIdle(c)
 	return r.settleEither(c, "goaway")
 }
@@ -991,8 +1033,13 @@ func (r *run) closePool() *failure {
 		}
 		return r.settle("pool-close")
 	}
-	// multiplex: every connection is closed, active requests are reset
+	// multiplex: every connection of the pool is closed, its active requests are reset. A connection that
+	// got GoAway may already have been replaced and then is no longer the pool's: its requests may live on.
+	// Close() is synchronous: what it reset is reset when it returns.
 	for _, s := range r.active() {
+		if s.st.State().Destroyed == 0 && s.conn != nil && s.conn.either {
+			continue
+		}
 		if !s.st.Wait(r.d, func(st pool.StreamState) bool { return st.Destroyed > 0 }) {
 			return r.failf(true, "lease-survives-pool-close", "pool.Close() closed the multiplex connections but request %q was not reset", s.token)
 		}
